@@ -12,11 +12,14 @@ variable {κ β σ : Type} [DecidableEq κ] [DecidableEq β] [DecidableEq σ]
 
 /-! ### association lists -/
 
+omit [DecidableEq β] in
 @[simp] theorem alookup_nil (k : κ) : alookup k ([] : List (κ × β)) = none := rfl
 
+omit [DecidableEq β] in
 theorem alookup_cons (k k' : κ) (v : β) (t : List (κ × β)) :
     alookup k ((k', v) :: t) = if k' = k then some v else alookup k t := rfl
 
+omit [DecidableEq β] in
 theorem alookup_some_mem {k : κ} {v : β} {d : List (κ × β)} (h : alookup k d = some v) :
     (k, v) ∈ d := by
   induction d with
@@ -28,6 +31,7 @@ theorem alookup_some_mem {k : κ} {v : β} {d : List (κ × β)} (h : alookup k 
     · rename_i hk; cases h; subst hk; simp
     · exact List.mem_cons_of_mem _ (ih h)
 
+omit [DecidableEq β] in
 theorem alookup_isSome_iff {k : κ} {d : List (κ × β)} :
     (alookup k d).isSome ↔ k ∈ akeys d := by
   induction d with
@@ -45,22 +49,27 @@ theorem alookup_isSome_iff {k : κ} {d : List (κ × β)} :
         · exact absurd h.symm hk
         · exact h
 
+omit [DecidableEq β] in
 theorem ahas_iff {k : κ} {d : List (κ × β)} : ahas k d = true ↔ k ∈ akeys d := by
   unfold ahas; exact alookup_isSome_iff
 
+omit [DecidableEq β] in
 theorem alookup_eq_none_iff {k : κ} {d : List (κ × β)} : alookup k d = none ↔ k ∉ akeys d := by
   rw [← alookup_isSome_iff]; cases alookup k d <;> simp
 
+omit [DecidableEq β] in
 theorem alookup_some_val_mem {k : κ} {v : β} {d : List (κ × β)} (h : alookup k d = some v) :
     v ∈ avals d := by
   have := alookup_some_mem h
   exact List.mem_map.mpr ⟨(k, v), this, rfl⟩
 
+omit [DecidableEq β] in
 theorem alookup_some_key_mem {k : κ} {v : β} {d : List (κ × β)} (h : alookup k d = some v) :
     k ∈ akeys d := by
   have := alookup_some_mem h
   exact List.mem_map.mpr ⟨(k, v), this, rfl⟩
 
+omit [DecidableEq β] in
 theorem alookup_of_mem_nodup {k : κ} {v : β} {d : List (κ × β)} (hnd : (akeys d).Nodup)
     (h : (k, v) ∈ d) : alookup k d = some v := by
   induction d with
